@@ -8,10 +8,14 @@ Inductive gop :=
 | GGet (role : N) (obs : option (list N))
 | GRoute (self src : N) (obs : list N)
 | GSend (ttl : Z) (after : Z)                 (* Agent.Send on a message with this TTL; TTL it is left with *)
-| GDeliver (digest : N) (seen : bool).        (* wasProcessed for a batch with this digest *)
+| GDeliver (digest : N) (seen : bool)         (* wasProcessed for a batch with this digest *)
+| GMembers (role : N) (obs : list N).         (* the peers the agent lists for a role after a membership notification, as a set *)
 
 Fixpoint ln_eqb (a b : list N) : bool :=
   match a, b with [], [] => true | x :: a', y :: b' => (x =? y) && ln_eqb a' b' | _, _ => false end.
+
+Definition set_eqb (a b : list N) : bool :=
+  Nat.eqb (length a) (length b) && forallb (fun x => existsb (N.eqb x) b) a && forallb (fun x => existsb (N.eqb x) a) b.
 
 Record gstate := { g_topo : topology; g_cache : list N }.
 
@@ -24,6 +28,7 @@ Definition run_gop (s : gstate) (o : gop) : gstate * bool :=
                       | Some [], None => true | _, _ => false end)
   | GRoute self src obs => (s, valid_route (g_topo s) self src obs)
   | GSend ttl after => (s, match send_ttl ttl with None => (after =? ttl)%Z | Some t => (after =? t)%Z end)
+  | GMembers r obs => (s, set_eqb (match topo_get (g_topo s) r with Some l => l | None => [] end) obs)
   | GDeliver d seen => let '(b, c) := was_processed (g_cache s) d in
                        ({| g_topo := g_topo s; g_cache := c |}, Bool.eqb b seen)
   end.
